@@ -215,8 +215,8 @@ fn gen_cfg(r: &mut Rng, o: &WorldOpts) -> TrkCfg {
             q_use: *r.pick(&[0.0f32, 0.3, 0.5]),
             q_collect: *r.pick(&[0.0f32, 0.4, 0.6]),
             min_area: *r.pick(&[0.0f32, 0.0, 150.0, 1000.0, 2500.0]),
-            own_use: if o.own_area && r.chance(1, 3) { *r.pick(&[0.3f32, 0.6, 0.9]) } else { 0.0 },
-            own_collect: if o.own_area && r.chance(1, 3) { *r.pick(&[0.4f32, 0.7, 0.95]) } else { 0.0 },
+            own_use: if o.own_area && r.chance(1, 3) { *r.pick(&[0.05f32, 0.3, 0.6, 0.9]) } else { 0.0 },
+            own_collect: if o.own_area && r.chance(1, 3) { *r.pick(&[0.04f32, 0.4, 0.7, 0.95]) } else { 0.0 },
         })
     } else {
         None
